@@ -680,3 +680,121 @@ func TestC12_ColdStart(t *testing.T) {
 		r.Case(fmt.Sprint(c.Exprs, c.Lengths, c.Rounds, c.Growth), len(buckets) >= 2, c, fmt.Sprintf("k:%d", k), fmt.Sprintf("rounds:%d", c.Rounds))
 	})
 }
+
+// TestC12_Overlap: the goroutines share the evaluator, not the data. Each goroutine owns a private
+// map, evaluates, renames a key of ITS map in place (same number of keys), evaluates again, renames
+// it back - while the other goroutines do the same with theirs, so that some other call on the
+// shared evaluator is almost always in flight. Every call returns what it returns when made
+// alone: the answer for the map as it is at that moment.
+type c12OverlapCase struct {
+	Text   string `json:"text"`
+	K      int    `json:"k"`
+	Rounds int    `json:"rounds"`
+	Keys   int    `json:"keys"`
+	Filter bool   `json:"filter"`
+}
+
+func c12OverlapRun(t failer, c *c12OverlapCase) {
+	ev, err := bexpr.CreateEvaluator(c.Text)
+	if err != nil {
+		t.Fatalf("harness: %q rejected: %v", c.Text, err)
+	}
+	flt, _ := bexpr.CreateFilter(c.Text)
+	mk := func(g int) map[string]interface{} {
+		m := map[string]interface{}{}
+		for i := 0; i < c.Keys; i++ {
+			m["k"+strconv.Itoa(i)] = "v" + strconv.Itoa(i)
+		}
+		return map[string]interface{}{"m": m, "g": g}
+	}
+	// sequential expectation for the two states of a document
+	seq := func(renamed bool) c12Result {
+		d := mk(0)
+		if renamed {
+			m := d["m"].(map[string]interface{})
+			m["k0_r"] = m["k0"]
+			delete(m, "k0")
+		}
+		fresh, _ := bexpr.CreateEvaluator(c.Text)
+		return c12One(fresh, d)
+	}
+	want := [2]c12Result{seq(false), seq(true)}
+	before := raceLogSize()
+	var mu sync.Mutex
+	var failures []string
+	var wg sync.WaitGroup
+	start := make(chan struct{})
+	for g := 0; g < c.K; g++ {
+		wg.Add(1)
+		go func(g int) {
+			defer wg.Done()
+			d := mk(g)
+			m := d["m"].(map[string]interface{})
+			<-start
+			for r := 0; r < c.Rounds; r++ {
+				for state := 0; state < 2; state++ {
+					var got c12Result
+					if c.Filter && r%2 == 1 {
+						out, xerr, pan := safeExecute(flt, []interface{}{d})
+						got = c12Result{res: xerr == nil && pan == nil && len(out.([]interface{})) == 1}
+						if xerr != nil {
+							got.err = xerr.Error()
+						}
+					} else {
+						got = c12One(ev, d)
+					}
+					if got != want[state] {
+						mu.Lock()
+						if len(failures) < 4 {
+							failures = append(failures, fmt.Sprintf("goroutine %d round %d, key k0 %s: got %+v, alone %+v", g, r, []string{"as created", "renamed to k0_r in place"}[state], got, want[state]))
+						}
+						mu.Unlock()
+					}
+					// rename in place: same map object, same number of keys
+					if state == 0 {
+						m["k0_r"] = m["k0"]
+						delete(m, "k0")
+					} else {
+						m["k0"] = m["k0_r"]
+						delete(m, "k0_r")
+					}
+				}
+			}
+		}(g)
+	}
+	close(start)
+	wg.Wait()
+	if len(failures) > 0 {
+		violation(t, "C12", "TestC12_Overlap", c, "%d goroutines share the evaluator of %q, each on its own map which it renames a key of between calls; results differ from the same calls made alone:\n %s", c.K, c.Text, strings.Join(failures, "\n "))
+	}
+	if raceLogSize() > before {
+		violation(t, "C12", "TestC12_Overlap", c, "the race detector reported a data race although every goroutine only touches its own datum\n%s", raceLogTail())
+	}
+}
+
+func init() {
+	replayers["TestC12_Overlap"] = func(t *testing.T, raw json.RawMessage) {
+		var c c12OverlapCase
+		if err := json.Unmarshal(raw, &c); err != nil {
+			t.Fatalf("bad case: %v", err)
+		}
+		for i := 0; i < 10; i++ {
+			c12OverlapRun(t, &c)
+		}
+		t.Logf("replay ok")
+	}
+}
+
+func TestC12_Overlap(t *testing.T) {
+	r := rec(t, "C12", c12Rule+"; TestC12_Overlap: a shared evaluator/filter, private maps whose keys the owning goroutine renames in place between calls, 2-8 goroutines x 5-60 rounds; non-trivial = the expression tells the two states apart")
+	texts := []string{
+		`any m as k { k == "k0_r" }`, `all m as k { k != "k0_r" }`, `any m as k, v { k == "k0" and v == "v0" }`, `"k0_r" in m`, `m.k0_r == "v0"`, `m.k0 is not empty or m.k0_r matches "^v"`,
+		`"k0" in m and (all m as _, v { v != "zz" })`, `any m as k { k matches "_r$" }`, `m is not empty`,
+	}
+	rapid.Check(t, func(t *rapid.T) {
+		c := &c12OverlapCase{Text: texts[rapid.IntRange(0, len(texts)-1).Draw(t, "text")], K: rapid.IntRange(2, 8).Draw(t, "k"), Rounds: rapid.IntRange(5, 60).Draw(t, "rounds"),
+			Keys: rapid.IntRange(1, 6).Draw(t, "keys"), Filter: rapid.Bool().Draw(t, "filter")}
+		c12OverlapRun(t, c)
+		r.Case(fmt.Sprintf("%s|%d|%d|%d|%v", c.Text, c.K, c.Rounds, c.Keys, c.Filter), c.Text != `m is not empty`, c, fmt.Sprintf("k:%d", c.K), fmt.Sprintf("filter:%v", c.Filter))
+	})
+}
